@@ -46,17 +46,28 @@ def shrink_case(case, still_fails, shrinker, budget=200):
 
 
 def differential(ctx, engine, cases, *, oracle=None, known=None, shrinker=None, nontrivial=None,
-                 release=False, hooks=False, describe=None, impl_args=(), model_engine=None, canon=None):
+                 release=False, hooks=False, describe=None, impl_args=(), model_engine=None, canon=None,
+                 split=None):
     """Runs all cases on both sides.  Returns a coverage dict; raises core.Violation.
        oracle(case, impl_out) -> None when the implementation's own output satisfies the property
        on that case, else a description of the clause that fails.
        known(case, impl_out, model_out) -> description when the disagreement / failure belongs to a
-       listed known finding, else None."""
+       listed known finding, else None.
+       split(impl_raw_out) -> (model_case, impl_observation): two-phase engines whose model consumes
+       something the implementation produced (e.g. the dumped syntax tree): the harness prints
+       "<model input><sep><observation>", the model is run on <model input> and must print <observation>.
+       The oracle then receives (case, impl_observation)."""
     t0 = time.time()
     hb = Engines.harness(release=release, hooks=hooks)
     mb = Engines.model()
     impl = core.run_lines(hb, engine, cases, extra_args=impl_args)
-    mod = core.run_lines(mb, model_engine or engine, cases)
+    if split:
+        pairs = [split(x) if not (x.startswith("PANIC") or x == "CRASH") else ("", x) for x in impl]
+        impl = [p[1] for p in pairs]
+        mod = core.run_lines(mb, model_engine or engine, [p[0] for p in pairs])
+        mod = [i if (i.startswith("PANIC") or i == "CRASH") and False else m for i, m in zip(impl, mod)]
+    else:
+        mod = core.run_lines(mb, model_engine or engine, cases)
     if canon:
         impl = [canon(x) for x in impl]
         mod = [canon(x) for x in mod]
@@ -88,13 +99,19 @@ def differential(ctx, engine, cases, *, oracle=None, known=None, shrinker=None, 
         if shrinker and oracle:
             def still(cand):
                 out = core.run_lines(hb, engine, [cand], shards=1, extra_args=impl_args)[0]
+                if split and not (out.startswith("PANIC") or out == "CRASH"):
+                    out = split(out)[1]
                 if canon:
                     out = canon(out)
                 return oracle(cand, out) is not None and not (known and known(cand, out, None))
             c2 = shrink_case(c, still, shrinker)
             if c2 != c:
                 i = core.run_lines(hb, engine, [c2], shards=1, extra_args=impl_args)[0]
-                m = core.run_lines(mb, model_engine or engine, [c2], shards=1)[0]
+                if split and not (i.startswith("PANIC") or i == "CRASH"):
+                    mc, i = split(i)
+                else:
+                    mc = c2
+                m = core.run_lines(mb, model_engine or engine, [mc], shards=1)[0]
                 if canon:
                     i, m = canon(i), canon(m)
                 r = oracle(c2, i)
